@@ -21,6 +21,8 @@ var commands = map[string]func([]string){
 	"codec":     cmdCodec,
 	"cli":       cmdCLI,
 	"ip":        cmdIP,
+	"tld":       cmdTLD,
+	"rsa":       cmdRSA,
 }
 
 func main() {
